@@ -4,11 +4,12 @@ from vf import findings
 from vf.unit import NativeUnit, sweep
 from vf.model import *
 
-CID_TEXT = "d,format,delimited\nf,id,,,,Integer\nf,kind\nc,u,IsUnique,id\nc,k,DistinctCount,kind < 3\n"
-FIXED_CID_TEXT = "d,format,fixed\nd,line delimiter,lf\nf,id,,,1,Integer\nf,kind,,,1\nc,u,IsUnique,id\nc,k,DistinctCount,kind < 3\n"
+CID_TEXT = "d,format,delimited\nd,allowed characters,32...121\nf,id,,,,Integer\nf,kind\nc,u,IsUnique,id\nc,k,DistinctCount,kind < 3\n"
+FIXED_CID_TEXT = "d,format,fixed\nd,line delimiter,lf\nd,allowed characters,32...121\nf,id,,,1,Integer\nf,kind,,,1\nc,u,IsUnique,id\nc,k,DistinctCount,kind < 3\n"
 CLEAN = "1,a\n2,b\n"; DUP = "1,a\n1,b\n"; MANY = "1,a\n2,b\n3,c\n"        # MANY fails the distinct count at the end
+BADCHAR = "7,z\n"                                                          # 'z' (122) is not among the allowed characters: refused in every run, however often it has been looked at before
 OTHER = "5,x\n6,y\n"                                                        # fine on its own; together with what CLEAN leaves behind it would exceed the distinct count
-OPS = ["read_clean", "read_dup", "read_many", "abandon1", "abandon2", "read_noclose", "write", "write_close", "write_dup", "two_readers", "validate_0", "validate_1", "reader_unused", "read_other", "write_nothing", "rows_fed_directly", "nothing_fed"]
+OPS = ["read_clean", "read_dup", "read_many", "abandon1", "abandon2", "read_noclose", "write", "write_close", "write_dup", "two_readers", "validate_0", "validate_1", "reader_unused", "read_other", "write_nothing", "rows_fed_directly", "nothing_fed", "read_badchar"]
 
 
 def run_op(cid, op):
@@ -19,8 +20,8 @@ def run_op(cid, op):
     def outcome(f):
         try: return ("ok", f())
         except errors.DataError as e: return ("DataError", type(e).__name__, str(e.location), e.message[:40])
-    if op in ("read_clean", "read_dup", "read_many", "read_other"):
-        text = {"read_clean": CLEAN, "read_dup": DUP, "read_many": MANY, "read_other": OTHER}[op]
+    if op in ("read_clean", "read_dup", "read_many", "read_other", "read_badchar"):
+        text = {"read_clean": CLEAN, "read_dup": DUP, "read_many": MANY, "read_other": OTHER, "read_badchar": BADCHAR}[op]
         return outcome(lambda: [r for r in validio.rows(cid, io.StringIO(T(text)))])
     if op in ("abandon1", "abandon2"):
         def f():
@@ -80,11 +81,12 @@ def unit_history_sweep():
         fresh_outcome = {(t, op): run_op(interface.create_cid_from_string(t), op) for op in OPS for t in (CID_TEXT, FIXED_CID_TEXT)}
         # the comparison below is between two runs of the same code; a few outcomes on a fresh CID are pinned as well, so that a change that breaks a run everywhere does not go unnoticed
         # (rows fed directly: kinds a, b, d of the three accepted rows, so 'kind < 3' fails at the end)
-        PINNED = {"rows_fed_directly": ("ok", ["ok", "ok", "rejected:values for ['id'] must be uniq", "ok", "end:distinct count is 3 but check "]), "nothing_fed": ("ok", "closed"), "read_clean": ("ok", [["1", "a"], ["2", "b"]])}
+        PINNED = {"rows_fed_directly": ("ok", ["ok", "ok", "rejected:values for ['id'] must be uniq", "ok", "end:distinct count is 3 but check "]), "nothing_fed": ("ok", "closed"), "read_clean": ("ok", [["1", "a"], ["2", "b"]]),
+                  "read_badchar": ("DataError", "FieldValueError", "<io> (R1C2)", "cannot accept field 'kind': character 'z")}
         def pin_check(op):
             got = fresh_outcome[(CID_TEXT, op)]
             return None if got == PINNED[op] else {"expected": repr(PINNED[op]), "observed": repr(got)}
-        pinned = sweep("C08/history/outcomes of single runs on a fresh CID", sorted(PINNED), pin_check, "bounded", "3 operations with their expected outcome (rows fed directly: the duplicate id is rejected, every other row accepted, the end-of-data check sees the three kinds of the accepted rows)",
+        pinned = sweep("C08/history/outcomes of single runs on a fresh CID", sorted(PINNED), pin_check, "bounded", "4 operations with their expected outcome (a character outside the allowed characters is refused at its cell; rows fed directly: the duplicate id is rejected, every other row accepted, the end-of-data check sees the three kinds of the accepted rows)",
                        describe=lambda o: {"operation": o}, function="validio on a fresh Cid", unit="C08.history", props=["C08", "C05", "C20"])
         def cases():
             for n in (1, 2):
